@@ -67,22 +67,47 @@ def rule_Q2(ctx):
     prs = [p for p in run_paths(ctx, ge, rule="Q2") if p.end == "return"]
     L = ge.args.args[0].arg
     stripped = f"({L}.pop(0)).strip()"
-    n = 0
-    for p in prs:
-        r = p.ret
-        if r is None:
-            continue
-        k = r.key()
-        if stripped in k:
-            n += 1
-            # the emptiness test was made on the same (fully stripped) text
-            tests = [c for c, t, _ in p.conds if ".pop(0)" in c]
-            good = (f"truthy(len({stripped}))", f"truthy({stripped})", f"-1*len({stripped}) < 0", f"len({stripped}) > 0")
-            ok = bool(tests) and all(c in good for c in tests) and any(t for c, t, _ in p.conds if c in good)
-            ctx.ob("Q2", p.ret_node, "a line is returned as non-empty only if its fully stripped text is non-empty (blank lines of spaces/tabs are skipped)", ok,
-                   "" if ok else f"emptiness is tested on {tests} but `{stripped}` is returned: a whitespace-only line comes back as '' and callers treat '' as end of input", inst=f"strip-test:{p.cond_key()[:60]}")
-    if n == 0:
-        ctx.ob("Q2", ge, "get_nonempty_entry returns the stripped text of a popped line", False, f"returns {[p.ret.key() for p in prs if p.ret]}", inst="strip-test")
+    from .sem import emptiness_by as _emq
+    gcfg = ctx.cfg(ge, "Q2")
+    gl = [w for w in own_nodes(ge) if isinstance(w, ast.While)]
+    rets = [r for r in own_nodes(ge) if isinstance(r, ast.Return)]
+    tv = None
+    if len(rets) == 1 and isinstance(rets[0].value, ast.Tuple) and len(rets[0].value.elts) == 2 and isinstance(rets[0].value.elts[0], ast.Name):
+        tv = rets[0].value.elts[0].id
+    ok_a = ok_b = len(gl) == 1 and tv is not None
+    det_a = det_b = "" if ok_a else "line-skipping loop or returned text variable not found"
+    n_body = 0
+    if ok_a:
+        glp = gcfg.loop_of(gl[0])
+        guard_says_empty = any(_emq(a_, lambda x: isinstance(x, ast.Name) and x.id == tv) is True for a_ in
+                               (gl[0].test.values if isinstance(gl[0].test, ast.BoolOp) and isinstance(gl[0].test.op, ast.And) else [gl[0].test]))
+        for kind, path, edge in gcfg.iteration_paths(glp):
+            if len(path) == 1:
+                continue  # leaving through the guard
+            pr = _walk(ctx, ge, gcfg, path)
+            n_body += 1
+            val = pr.env.get(tv)
+            if val is None or val.key().replace("~", "") != stripped:
+                ok_a, det_a = False, f"after an iteration the text is `{val.key() if val is not None else None}`, not the stripped popped line"
+                continue
+            # what the path established about the stripped text
+            est = None
+            for s_ in pr.steps:
+                if s_.kind == "test" and s_.label in ("true", "false") and s_.ast is not gl[0] and hasattr(s_.ast, "test"):
+                    ev_ = evaluator(ctx, ge, s_.env)
+                    e_ = _emq(s_.ast.test, lambda x: ev_.ev(x).key().replace("~", "") == stripped)
+                    if e_ is not None:
+                        est = (s_.label == "true") == e_
+            if kind == "back":
+                if not (est is True or guard_says_empty):
+                    ok_b, det_b = False, "another line is fetched although the stripped text was not found empty"
+            else:
+                if est is not False:
+                    ok_b, det_b = False, f"the loop is left with a line whose fully stripped text was not found non-empty (whitespace-only lines come back as '' and callers treat '' as end of input)"
+        # leaving through the guard with lines left is only possible when the guard itself asks for an empty text
+        ok_a = ok_a and n_body >= 1
+    ctx.ob("Q2", ge, "get_nonempty_entry returns the stripped text of a popped line", ok_a, det_a, inst="strip-test")
+    ctx.ob("Q2", ge, "a line is returned as non-empty only if its fully stripped text is non-empty (blank lines of spaces/tabs are skipped)", ok_b, det_b, inst="strip-test:paths")
     ok = all(p.ret is not None and p.ret.key().startswith("tuple(") and p.ret.key().endswith(f",{L})") for p in prs)
     ctx.ob("Q2", ge, "the remaining lines are returned with the text", ok, "", inst="returns-lines")
     # track body loop
